@@ -92,6 +92,10 @@ class CFG:
             t = blk['term']
             if t['k'] != 'goto':
                 continue
+            if t.get('threaded_via'):
+                # inline.thread_jumps took this edge in place of the switch edge (T, label): outcome queries see it as that edge
+                self.threaded.setdefault((t['threaded_via'][0], t['threaded_via'][1]), []).append((bi, t['target']))
+                continue
             T = t['target']
             tb = body.blocks[T]
             tt = tb['term']
